@@ -35,6 +35,24 @@ Section SigInd.
     end.
 End SigInd.
 
+Fixpoint sig_eqb (a b : sig) {struct a} : bool :=
+  match a, b with
+  | SUnit, SUnit | SU8, SU8 | SBool, SBool | SI16, SI16 | SU16, SU16 | SI32, SI32 | SU32, SU32
+  | SI64, SI64 | SU64, SU64 | SF64, SF64 | SStr, SStr | SSig, SSig | SObjPath, SObjPath
+  | SVariant, SVariant | SFd, SFd => true
+  | SArray x, SArray y => sig_eqb x y
+  | SMaybe x, SMaybe y => sig_eqb x y
+  | SDict k v, SDict k' v' => sig_eqb k k' && sig_eqb v v'
+  | SStruct l, SStruct l' =>
+      (fix go (l l' : list sig) {struct l} : bool :=
+         match l, l' with
+         | [], [] => true
+         | x :: r, y :: r' => sig_eqb x y && go r r'
+         | _, _ => false
+         end) l l'
+  | _, _ => false
+  end.
+
 (* Display for Signature (zvariant_utils/src/signature/mod.rs: write_as_string) *)
 Fixpoint show (s : sig) : bytes :=
   match s with
@@ -47,13 +65,16 @@ Fixpoint show (s : sig) : bytes :=
   | SMaybe c => B "m" ++ show c
   end.
 
+Definition show_noparens (s : sig) : bytes :=
+  match s with SStruct fs => concat (map show fs) | _ => show s end.
+
 (* D-Bus alignment (Signature::alignment(Format::DBus)) *)
 Definition align_dbus (s : sig) : N :=
   match s with
-  | SUnit | SU8 | SSig | SVariant => 1
+  | SU8 | SSig | SVariant => 1
   | SI16 | SU16 => 2
   | SBool | SI32 | SU32 | SFd | SStr | SObjPath | SArray _ | SDict _ _ => 4
-  | SI64 | SU64 | SF64 | SStruct _ => 8
+  | SI64 | SU64 | SF64 | SUnit | SStruct _ => 8
   | SMaybe _ => 1 (* unreachable!() in the code for D-Bus; modelled where it matters *)
   end.
 
